@@ -43,6 +43,13 @@ class NPShim:
     def asarray(obj, dtype=None, **kw):
         return NPShim.array(obj, dtype=dtype, **kw)
 
+    @staticmethod
+    def full(shape, fill_value, dtype=None, **kw):
+        """work arrays that will receive proxies: object dtype, same fill value"""
+        a = _np.empty(shape, dtype=object)
+        a.fill(fill_value)
+        return a
+
     # -- elementary functions --
     @staticmethod
     def log(x):
